@@ -17,7 +17,12 @@ RULE = ('exhaustive box: line width w in 1..5 x sequence length n in 0..11 x {LF
         'get / get_fasta / get_fastaheader (thorough: the whole box; quick: a seeded sample of it); random file sets (1-3 files, '
         'w up to 200, n up to 5000, ranges biased to line breaks and the record end, separate add calls per file in a random '
         'registration order); a family with one add call per file in reverse / rotated order against the file names, both back ends, '
-        'same object and reopened, every record of every file queried; a malformed '
+        'same object and reopened, every record of every file queried; a history / '
+        'state-independence stream (150 quick / 2000 thorough: several calls on the same index object with mixed lists of plain ids and '
+        '(id, i, j) triples through get/iter, get_fasta/iter_fasta, get_fastaheader/iter_fastaheader, the same call repeated, reversed '
+        'and through another api, the same id with different ranges in both orders, a second object on the same index, a freshly '
+        'opened object, files added again, calls right after a failed lookup; every answer is compared with the pure model of that '
+        'query alone); a malformed '
         'stream of raw files (compared for drift only); corpus = witnesses of F11-F13, F15, F16. '
         'non-trivial = distinct case whose queries cross a line break, are clipped, start beyond the end, hit an empty record, '
         'use CRLF or a file without final newline')
@@ -86,7 +91,25 @@ def expand_queries(case):
         for i in range(b['m']):
             for j in range(i + 1, b['m'] + 1):
                 qs.append([(i + j) % 2, b['id'], i, j])
-    return qs
+    return qs + [q for st in hist_steps(case) for q in st[3]]
+
+
+def hist_steps(case):
+    """history steps as tuples: ('call', api, use_iterator, [queries as lists]) | ('obj', k) | ('fresh',) | ('readd', k).
+    A call step passes its whole (mixed) list of plain ids and (id, i, j) triples to ONE api call."""
+    out = []
+    for st in case.get('hist') or []:
+        op = st.get('op')
+        if op == 'call':
+            api = st.get('api') if st.get('api') in (0, 1, 2) else 2
+            qs = [[api, q['id'], q['i'], q['j']] if q['rng'] else [api, q['id']] for q in st.get('qs', [])]
+            if qs:
+                out.append(('call', api, bool(st.get('it')), qs))
+        elif op in ('obj', 'readd'):
+            out.append((op, st.get('k', 0), None, []))
+        elif op == 'fresh':
+            out.append((op, None, None, []))
+    return out
 
 
 def order_of(case):
@@ -165,6 +188,8 @@ def run_index(case, d):
             idx = FastaIndex(dbname)
             assert idx.mode == mode
         n = len(idx)
+        nh = sum(len(st[3]) for st in hist_steps(case))
+        qs = qs[:len(qs) - nh]
         res = [_one_query(idx, q) for q in qs]
         # several ids in one call give the same answers in the same order (only checked when nothing raises)
         k1 = [k for k, q in enumerate(qs) if q[0] == 1 and not isinstance(res[k], dict)][:4]
@@ -172,13 +197,107 @@ def run_index(case, d):
             _unpoison(idx)
             joined = idx.get_fasta([_py(qs[k]) for k in k1])
             assert joined == ''.join(res[k] for k in k1), 'several queries in one call'
+        if hist_steps(case):
+            idx, hres = run_history(case, idx, dbname, mode, paths)
+            res += hres
         return [sums, [n, res]]
     finally:
-        if mode == 'db':
+        for o in [idx] + _HIST_OBJS:
+            if mode == 'db':
+                try:
+                    o.db.close()
+                except Exception:
+                    pass
+        del _HIST_OBJS[:]
+
+
+_HIST_OBJS = []
+
+
+def _list_call(idx, api, use_it, qs):
+    """ONE api call with the whole list; per-query answers in order (the whole step gets the exception if it raises)"""
+    arg = [_py(q) for q in qs]
+    if len(arg) == 1 and not use_it:
+        arg = arg[0]                       # a single query is passed bare
+    try:
+        _unpoison(idx)
+        if api == 0:
+            seqs = list(idx.iter(arg)) if use_it else list(idx.get(arg))
+            out = [[s.id, s.meta._fasta.header, str(s)] for s in seqs]
+        elif api == 1:
+            out = list(idx.iter_fasta(arg))
+            if not use_it:
+                _unpoison(idx)
+                assert idx.get_fasta(arg) == ''.join(out), 'get_fasta is the concatenation of iter_fasta'
+        else:
+            out = list(idx.iter_fastaheader(arg))
+            if not use_it:
+                _unpoison(idx)
+                assert idx.get_fastaheader(arg) == ''.join(out), 'get_fastaheader is the concatenation of iter_fastaheader'
+        assert len(out) == len(qs), 'one answer per query'
+        return out
+    except Exception as e:
+        return [canon_exc(e)] * len(qs)
+
+
+def run_history(case, idx, dbname, mode, paths):
+    """Several calls on the same index object(s): mixed query lists, the same call repeated, other objects opened on the
+    same index, files added again, calls after a failed lookup.  The model is pure: every answer must be what a fresh index
+    gives for that query alone."""
+    from sugar import FastaIndex
+    objs = {0: idx}
+    cur = 0
+    res = []
+    builder = [None if case['reopen'] else idx]      # a reopened dbm index is read-only: only its builder can add again
+
+    def reopen_all():
+        builder[0] = None
+        for o in objs.values():
+            if mode == 'db':
+                try:
+                    o.db.close()
+                except Exception:
+                    pass
+        objs.clear()
+
+    for st in hist_steps(case):
+        op = st[0]
+        if op == 'call':
+            res += _list_call(objs[cur], st[1], st[2], st[3])
+        elif op == 'obj':
+            k = st[1] % 2
+            if k not in objs:
+                if mode == 'db':          # dbm.dumb commits on close: the builder is closed before others open the index
+                    reopen_all()
+                    objs[0] = FastaIndex(dbname)
+                if k not in objs:
+                    objs[k] = FastaIndex(dbname)
+                    _HIST_OBJS.append(objs[k])
+            cur = k
+        elif op == 'fresh':
+            reopen_all()
+            objs[cur] = FastaIndex(dbname)
+            _HIST_OBJS.append(objs[cur])
+        elif op == 'readd':
+            o = objs[cur]
+            if mode == 'db':
+                if builder[0] is None or builder[0] is not o:
+                    continue
             try:
-                idx.db.close()
-            except Exception:
-                pass
+                o.add(paths[st[1] % len(paths)], silent=True, force=(mode == 'binary'))
+            except Exception as e:
+                res.append(canon_exc(e))      # shifts the answers: reported as a disagreement
+            keep = objs[cur]                   # the other objects have not seen the rewrite of the index file
+            for k in list(objs):
+                if k != cur:
+                    if mode == 'db':
+                        try:
+                            objs[k].db.close()
+                        except Exception:
+                            pass
+                    del objs[k]
+            objs[cur] = keep
+    return objs[cur], res
 
 
 def impl(case):
@@ -227,10 +346,17 @@ def model_term(case):
         m = case['box']['m']
         nbox = m * (m + 1) // 2
     allq = expand_queries(case)
-    qs = coq_list([coq_query(q) for q in allq[:len(allq) - nbox]])
+    nh = sum(len(st[3]) for st in hist_steps(case))
+    nq = len(allq) - nbox - nh
+    qs = coq_list([coq_query(q) for q in allq[:nq]])
     if case.get('box'):
         qs = '(%s ++ box_queries %s %s)' % (qs, coq_bs(case['box']['id']), coq_natx(case['box']['m']))
-    return 'out (run_C09 %s %s %s %s %s %s)' % (coq_N(MODES[mode_of(case)]), coq_N(case.get('addmode', 0)), coq_bool(case['reopen']), coq_list([coq_natx(k) for k in order_of(case)]), coq_list([coq_file(f) for f in case['files']]), qs)
+    if nh:
+        # the model is pure: the expected answer of every step of a history is the model's answer to that query alone
+        qs = '(%s ++ %s)' % (qs, coq_list([coq_query(q) for q in allq[len(allq) - nh:]]))
+    return 'out (run_C09 %s %s %s %s %s %s)' % (coq_N(MODES[mode_of(case)]), coq_N(case.get('addmode', 0)), coq_bool(case['reopen']),
+                                              coq_list([coq_natx(k) for k in order_of(case)]),
+                                              coq_list([coq_file(f) for f in case['files']]), qs)
 
 
 def split_model(case, m):
@@ -383,6 +509,8 @@ def histkey(case, got):
         ks.append(fl)
     nq = len(expand_queries(case))
     ks.append('queries=' + ('0-9' if nq < 10 else '10-49' if nq < 50 else '50+'))
+    for st in hist_steps(case):
+        ks.append('hist:' + st[0] + (':list' if st[0] == 'call' and len(st[3]) > 1 else ''))
     return ks
 
 
@@ -518,6 +646,84 @@ def regorder_case(rng, nfiles, order, db, reopen):
     return {'_kind': 'regorder', 'db': db, 'reopen': reopen, 'addmode': 2, 'order': list(order), 'files': files, 'queries': qs}
 
 
+def hist_case(rng):
+    """history / state-independence stream: several calls on the same index object(s)"""
+    mode = rng.choice(['binary', 'db'])
+    nfiles = rng.choice([1, 2, 2])
+    files, recs = [], []
+    for k in range(nfiles):
+        rs = []
+        for t in range(rng.choice([2, 3])):
+            w = rng.choice([3, 4, 5, 7])
+            n = rng.choice([0, w + 1, 2 * w, 11, 11, 13])           # equal lengths and equal id lengths collide on purpose
+            r = {'id': 's%d%s' % (k, 'abc'[t]), 'desc': rng.choice(['', ' d', ' sample 7 ', '\tx']), 'seq': _rand_seq(rng, n), 'w': w}
+            rs.append(r)
+            recs.append(r)
+        files.append({'crlf': rng.random() < 0.3, 'final': rng.random() < 0.7, 'recs': rs})
+
+    def q(api, r=None, kind=None):
+        r = r or rng.choice(recs)
+        n, w = len(r['seq']), r['w']
+        kind = kind or rng.choice(['id', 'id', 'rng', 'rng', 'rng', 'open', 'none'])
+        if kind == 'id':
+            return Q(api, r['id'])
+        if kind == 'none':
+            return Q(api, r['id'], None, None)
+        i = rng.choice([0, 1, w - 1, w, n - 1, n, n + 2, rng.randint(0, n + 1)])
+        i = max(0, i)
+        if kind == 'open':
+            return Q(api, r['id'], i, None) if rng.random() < 0.5 else Q(api, r['id'], None, i + 1)
+        return Q(api, r['id'], i, i + rng.choice([1, 2, w, w + 2, n + 3]))
+
+    def qlist(api):
+        while True:
+            ql = [q(api) for _ in range(rng.choice([2, 2, 4, 5, 3]))]
+            if not (len(ql) == 3 and ql[1]['rng']):    # _search takes a list of three with a triple in the middle for ONE query
+                break
+        if rng.random() < 0.5:                      # a plain id directly after a triple and a triple directly after a plain id
+            r1, r2 = rng.choice(recs), rng.choice(recs)
+            ql[0:2] = [q(api, r1, 'rng'), q(api, r2, 'id')] if rng.random() < 0.5 else [q(api, r1, 'id'), q(api, r2, 'rng')]
+            if len(ql) == 3 and ql[1]['rng']:
+                ql.append(q(api, None, 'id'))
+        return ql
+    hist = []
+    last = None
+    for _ in range(rng.choice([6, 9, 12])):
+        c = rng.random()
+        api = rng.choice([0, 0, 1, 2, 2])
+        if c < 0.40:
+            last = {'op': 'call', 'api': api, 'it': rng.random() < 0.4, 'qs': qlist(api)}
+            hist.append(last)
+        elif c < 0.50 and last:
+            hist.append(json.loads(json.dumps(last)))                                  # the same call again
+        elif c < 0.58 and last:
+            hist.append(dict(json.loads(json.dumps(last)), qs=list(reversed(json.loads(json.dumps(last['qs']))))))   # other order
+        elif c < 0.66 and last:
+            hist.append(dict(json.loads(json.dumps(last)), api=(last['api'] + 1) % 3))    # same list through another api
+        elif c < 0.74:
+            r = rng.choice(recs)                                                        # same id, different ranges, both orders
+            a, b = q(api, r, 'rng'), q(api, r, 'rng')
+            hist.append({'op': 'call', 'api': api, 'it': False, 'qs': [a]})
+            hist.append({'op': 'call', 'api': api, 'it': False, 'qs': [b]})
+            hist.append({'op': 'call', 'api': api, 'it': False, 'qs': [json.loads(json.dumps(a))]})
+        elif c < 0.80:
+            hist.append({'op': 'call', 'api': api, 'it': False, 'qs': [Q(api, 'nosuchid') if rng.random() < 0.6 else Q(api, 'nosuchid', 1, 3)]})
+            hist.append({'op': 'call', 'api': api, 'it': False, 'qs': [q(api)]})       # a query right after the failed lookup
+        elif c < 0.88:
+            hist.append({'op': 'obj', 'k': rng.choice([0, 1])})
+        elif c < 0.94:
+            hist.append({'op': 'fresh'})
+        else:
+            hist.append({'op': 'readd', 'k': rng.randrange(nfiles)})
+    c = {'_kind': 'history', 'db': mode == 'db', 'reopen': rng.random() < 0.4, 'addmode': 2 if nfiles > 1 and rng.random() < 0.5 else 0,
+         'files': files, 'queries': [], 'hist': hist}
+    if c['addmode'] == 2:
+        o = list(range(nfiles))
+        rng.shuffle(o)
+        c['order'] = o
+    return c
+
+
 def malformed_case(rng):
     c = rand_case(rng, False)
     c['_kind'] = 'malformed'
@@ -572,6 +778,8 @@ def gen_cases(rng, tier):
         for db in (False, True):
             for reopen in (False, True):
                 cases.append(regorder_case(rng, len(o), o, db, reopen))
+    for _ in range(2000 if tier == 'thorough' else 150):
+        cases.append(hist_case(rng))
     nrand, nmal = (6000, 600) if tier == 'thorough' else (260, 40)
     for k in range(nrand):
         cases.append(rand_case(rng, big=(k % 10 == 0)))
